@@ -291,3 +291,63 @@ func isWriterMethod(name string) bool {
 }
 
 func fset(c *core.Ctx) *token.FileSet { return c.Fset }
+
+// checkArmijoBeforeAcceptance (C07.R4, second clause): in both phases of the line search a trial step is accepted (returned
+// with a nil error under the curvature condition) only on paths where the sufficient-decrease test has already failed to
+// reject it: the false edge of the test that mentions c1 dominates the acceptance. Otherwise a flat spot above the Armijo
+// line is returned as a step, which violates the first strong Wolfe condition.
+func checkArmijoBeforeAcceptance(c *core.Ctx) {
+	p := c.Pkg("algorithm/lineSearch")
+	if p == nil {
+		return
+	}
+	info := p.TypesInfo
+	for _, fname := range []string{"lineSearch", "zoom"} {
+		fd := findFuncDecl(p, fname)
+		cons := "algorithm/lineSearch." + fname
+		if fd == nil {
+			continue
+		}
+		var armijo ast.Expr
+		var accept *ast.ReturnStmt
+		ast.Inspect(fd.Body, func(n ast.Node) bool {
+			is, ok := n.(*ast.IfStmt)
+			if !ok {
+				return true
+			}
+			cs := types.ExprString(is.Cond)
+			mentions := func(name string) bool {
+				found := false
+				ast.Inspect(is.Cond, func(m ast.Node) bool {
+					if id, ok := m.(*ast.Ident); ok && id.Name == name {
+						found = true
+					}
+					return true
+				})
+				return found
+			}
+			_ = cs
+			if mentions("c1") && armijo == nil {
+				armijo = is.Cond
+			}
+			if mentions("c2") && len(is.Body.List) == 1 {
+				if rs, ok := is.Body.List[0].(*ast.ReturnStmt); ok && len(rs.Results) == 2 {
+					if tv, ok := info.Types[rs.Results[1]]; ok && tv.IsNil() {
+						accept = rs
+					}
+				}
+			}
+			return true
+		})
+		if armijo == nil || accept == nil {
+			c.Unknown("C07.R4", cons, "sufficient decrease is tested before a step is accepted", fd.Pos(), "the sufficient-decrease test (c1) or the acceptance under the curvature condition (c2) was not found")
+			continue
+		}
+		g := core.NewFuncCFG(fd.Body, info)
+		_, e := g.CondEdge(armijo)
+		ab, _ := g.BlockOf(accept.Pos())
+		ok := e != nil && ab != nil && g.Dominates(e, ab)
+		c.Check(ok, "C07.R4", cons, "sufficient decrease is tested before a step is accepted", accept.Pos(),
+			"the step is accepted under the curvature condition on a path that has not passed the sufficient-decrease test "+types.ExprString(armijo)+" (its false branch does not dominate the acceptance): a trial step on a flat spot above the Armijo line is returned, which violates the first strong Wolfe condition")
+	}
+}
